@@ -27,6 +27,8 @@ VARIABLE c
 Init ==
   CASE Family = "extend" -> \E l0 \in Layouts \cup {"No"}, gs \in SeqsUpTo(Geoms, MaxLen) : c = [fam |-> "extend", l0 |-> l0, gs |-> gs]
     [] Family = "gc" -> \E t \in T2 : c = [fam |-> "gc", t |-> t]
+    [] Family = "clone" -> \E l0 \in Layouts \cup {"No"}, gs \in SeqsUpTo(Geoms, MaxLen), m1 \in Geoms, m2 \in Geoms, side \in {1, 2} :
+                             c = [fam |-> "clone", l0 |-> l0, gs |-> gs, m1 |-> m1, m2 |-> m2, first |-> side]
     [] Family = "overlap" ->
          \/ \E b1 \in Box(2), b2 \in Box(2) : c = [fam |-> "overlap", n |-> 2, l |-> "XY", b1 |-> b1, b2 |-> b2]
          \/ \E b1 \in Box3, b2 \in Box3, l \in {"XY", "XYZ", "XYM"} : c = [fam |-> "overlap", n |-> 3, l |-> l, b1 |-> b1, b2 |-> b2]
